@@ -1,6 +1,7 @@
 """Generators for C12: documents rich in sub-documents / arrays of sub-documents / mixed arrays,
 and the projection grammar (dict and list forms, `_id` toggling, nested dotted paths, `$slice`
-counts and pairs, `$elemMatch` conditions, and a malformed stream)."""
+counts and pairs, `$elemMatch` conditions, and a malformed stream); a second flavour draws
+documents whose arrays carry datetimes and projections whose conditions look at them."""
 import copy
 
 import gen
@@ -249,6 +250,141 @@ class ProjGen(object):
             return self.dict_proj(doc, malformed=True)
         self.note('form:dict')
         return self.dict_proj(doc)
+
+    # -- dated flavour: arrays whose items carry datetimes, projections that look at them -----
+    def date(self):
+        return self.r.choice(gen.DATES)
+
+    def dated_items(self):
+        """an array of sub-documents with one or two date fields (now and then an item lacks the
+        field, holds null / another scalar there, or is no document), or an array of dates"""
+        r = self.r
+        n = r.choice([1, 2, 2, 3, 3, 4])
+        if r.random() < 0.2:
+            return [self.date() if r.random() < 0.85 else self.g.simple_scalar() for _ in range(n)]
+        names = r.sample(SUBFIELDS, r.choice([1, 1, 2]))
+        other = r.choice([f for f in SUBFIELDS if f not in names])
+        out = []
+        for _ in range(n):
+            if r.random() < 0.06:
+                out.append(self.date() if r.random() < 0.5 else self.g.simple_scalar())
+                continue
+            it = {}
+            for f in names:
+                x = r.random()
+                if x < 0.82:
+                    it[f] = self.date()
+                elif x < 0.9:
+                    it[f] = r.choice([None, 1, 'a', [self.date()], {'a': self.date()}])
+            if r.random() < 0.7:
+                it[other] = r.choice(gen.INTS)
+            if r.random() < 0.3:
+                it = dict(reversed(list(it.items())))
+            out.append(it)
+        return out
+
+    def dated_doc(self, _id):
+        r = self.r
+        names = r.sample(gen.FIELDS, r.choice([2, 3, 3, 4]))
+        d = {'_id': _id}
+        d[names[0]] = self.dated_items()
+        for f in names[1:]:
+            x = r.random()
+            if x < 0.3:
+                d[f] = self.dated_items()
+            elif x < 0.55:
+                d[f] = self.date()
+            elif x < 0.75:
+                d[f] = {'a': self.date(), 'b': r.choice(gen.INTS)}
+            else:
+                d[f] = self.value(1)
+        if r.random() < 0.2:
+            items = list(d.items())
+            items.append(items.pop(0))
+            d = dict(items)
+        return d
+
+    def date_operand(self, items, key=None):
+        """a datetime to compare with: mostly one the array holds (under `key`)"""
+        r = self.r
+        if key is None:
+            have = [x for x in items if not isinstance(x, (dict, list))]
+        else:
+            have = [x[key] for x in items if isinstance(x, dict) and key in x and
+                    not isinstance(x[key], (dict, list))]
+        if have and r.random() < 0.75:
+            return copy.deepcopy(r.choice(have))
+        return self.date()
+
+    def date_condition(self, items, key=None):
+        """equality (implicit / $eq), one or two range operators, $in / $nin / $ne over dates"""
+        r = self.r
+        x = r.random()
+        v = lambda: self.date_operand(items, key)       # noqa: E731
+        if x < 0.3:
+            self.note('datecond:eq')
+            return v() if (key is not None and r.random() < 0.7) else {'$eq': v()}
+        if x < 0.6:
+            self.note('datecond:range')
+            return {r.choice(gen_filter.CMP): v()}
+        if x < 0.78:
+            self.note('datecond:range2')
+            return {r.choice(['$gt', '$gte']): v(), r.choice(['$lt', '$lte']): v()}
+        if x < 0.9:
+            self.note('datecond:in')
+            return {r.choice(['$in', '$in', '$nin']): [v() for _ in range(r.choice([1, 2, 3]))]}
+        self.note('datecond:ne')
+        return {'$ne': v()}
+
+    def dated_projection(self, doc):
+        """one projection operator on an array that carries datetimes ($elemMatch whose condition
+        looks at a date by equality or by range, on a field of the items or on the items
+        themselves; $slice), alone or next to plain paths / date fields"""
+        r = self.r
+        tops = [k for k in doc if k != '_id']
+        arrs = [k for k in tops if isinstance(doc[k], list)]
+        if not arrs:
+            return self.dict_proj(doc)
+        f = r.choice(arrs)
+        items = doc[f]
+        keys = sorted({k for it in items if isinstance(it, dict) for k in it})
+        proj = {}
+        x = r.random()
+        if x < 0.62:
+            self.note('dated:$elemMatch')
+            if keys and r.random() < 0.85:
+                cond = {}
+                for k in r.sample(keys, 1 if r.random() < 0.8 or len(keys) < 2 else 2):
+                    cond[k] = self.date_condition(items, k)
+            else:
+                c = self.date_condition(items)
+                cond = c if isinstance(c, dict) else {'$eq': c}
+            proj[f] = {'$elemMatch': cond}
+        elif x < 0.9:
+            self.note('dated:$slice')
+            proj[f] = {'$slice': self.slice_operand()}
+        else:
+            self.note('dated:paths')
+        # plain paths next to (never under) the operator field
+        if r.random() < (0.45 if proj else 1.0):
+            include = r.random() < 0.55
+            cands = [q for q in ('.'.join(t) for t in self.key_paths(doc))
+                     if q.split('.')[0] != f or not proj]
+            paths = []
+            for _ in range(r.choice([1, 1, 2])):
+                if not cands:
+                    break
+                q = r.choice(cands)
+                if q not in paths and not self.collide(paths + [q]):
+                    paths.append(q)
+            plain = {q: (1 if include else 0) for q in paths}
+            if r.random() < 0.5:
+                plain.update(proj)
+                proj = plain
+            else:
+                proj.update(plain)
+        self.id_flag(proj)
+        return proj
 
     def agg_projection(self, doc):
         """plain inclusion / exclusion specifications for `$project` (flags only)"""
